@@ -118,6 +118,14 @@ func TestVerifC18(t *testing.T) {
 				}
 				if ra, ok := msg.(*ndp.RouterAdvertisement); ok {
 					lastRA, lastFrom = ra, from
+				} else if sr.Intn(5) == 0 {
+					// solicitations of a host that has no address yet (duplicate address
+					// detection, first RS after boot) come from the unspecified address:
+					// a sender address like any other
+					from, host = netip.MustParseAddr("::"), "::"
+					if rs, ok := msg.(*ndp.RouterSolicitation); ok && len(rs.Options) > 0 {
+						msg = vRS(false) // RFC 4861 6.1.1: no source link-layer option from ::
+					}
 				}
 				hop := 255
 				if invalidRate > 0 && (run > 0 && run < 9 && sr.Intn(3) != 0 || sr.Intn(invalidRate+2) == 0) {
